@@ -111,5 +111,28 @@ PROPS = {
         "read-range oracle on every ReadAt of seeded histories, ranges from the independent decoder"),
 }
 
-for _p in ["C03", "C05", "C07", "C17"]:
+PROPS["C03"] = seq(
+    "histories (mutations, collection management, Flush, Collection.Write, FlushRevert, values containing magic markers, copies of real "
+    "root records and near-miss forged root records) are sampled; inside each history the crash points are ENUMERATED from the SimDisk "
+    "write log: every boundary between image-changing calls, torn lengths of the call in flight (thorough: every byte for files <= 16 KiB, "
+    "else boundaries +-3 and a sample; quick: a handful per write), each also with adversarial junk tails (random bytes, doubled magics, "
+    "torn copy of an earlier root record, relocated complete copy); each surviving image is opened by the real NewStore and by the "
+    "independent decoder and must equal the last flush whose root record lies completely inside the prefix; sampled crash points are "
+    "continued (mutations, flush, re-open, a second crash). evaluations = crash images opened + continuations. Non-trivial history: >=2 "
+    "flush-stack changes and a torn write above a completed flush.",
+    "fault enumeration: crash points and torn lengths enumerated inside seeded histories; recovery checked by two independent readers against the model",
+    level="fault_enumeration")
+PROPS["C07"] = seq(
+    "histories are sampled and first run fault-free recording the StoreFile calls of every operation; then ONE fault is placed at every "
+    "individual ReadAt/WriteAt/Stat/Truncate call (k = 1..all) of every error-reporting operation (open, lookups, visits, iterators, "
+    "Set/Delete, Flush, FlushRevert, CopyTo source and destination, Collection.Write): read_error, read_short, write_error, write_torn "
+    "(thorough: every length up to 128 bytes), stat_error, truncate_error, some sticky; quick takes a stratified seeded sample of 60 "
+    "placements per history, thorough all; plus runs with 2-3 faults. Each placement re-executes the history: the faulted call must "
+    "return an error, an audit right after must equal the unchanged model, the decoder must still read the last flushed state, the "
+    "history continues exactly and ends with flush / re-open / audit. evaluations = fault placements executed. Non-trivial: a history "
+    "with >5 operations whose placements ran.",
+    "fault enumeration: one fault at every StoreFile call of every operation of seeded histories; error returned, model unchanged, durable states intact, history continues exactly",
+    level="fault_enumeration")
+
+for _p in ["C05", "C17"]:
     PROPS.setdefault(_p, {"assumptions": SEQ_ASSUME, "ready": False})
